@@ -400,8 +400,14 @@ def rule_f4(F):
     defs = mir.Defs(rv)
     dom = mir.dominators(rv)
     ret = [bi for bi, t in mir.calls(rv) if hir.last(mir.callee(t)) == "emit_return"]
-    drops = [bi for bi, t in mir.calls(rv) if hir.last(mir.callee(t)) == "emit_drop"]
+    drops = [bi for bi, t in mir.calls(rv) if hir.last(mir.callee(t)) == "emit_drop" or drainers(F).get(mir.callee(t))]
     revs = [bi for bi, t in mir.calls(rv) if hir.last(mir.callee_def(t)) == "rev"]
+    # .. or in the helper that drains one frame
+    for _, t in mir.calls(rv):
+        if drainers(F).get(mir.callee(t)):
+            hb = F.body(mir.callee(t))
+            if hb is not None and hb.mir:
+                revs += [bi for bi, t2 in mir.calls(hb) if hir.last(mir.callee_def(t2)) == "rev"]
     # the walk over the variables of one frame may be written in a closure handed to an adaptor (`flat_map(|frame| frame.iter().rev())`)
     for cb in F.all_bodies():
         if cb.path.startswith(rv.path + "::{closure") and cb.mir:
@@ -503,6 +509,12 @@ def rule_f7(F):
                         if (is_frame_op(pt_, "pop") or (mir.callee_def(pt_) == "std::mem::take" and (pt_["f"].get("gargs") or [None])[0] == FRAME_TY)) \
                                 and (any(c[0] == pb_ for c in mir.value_chain(b, defs0, a[1][0])) or deps_chain_has(b, defs0, a[1][0], pb_)):
                             ok = True
+                    # the frames of the whole stack, walked in place (return_value: everything live is dropped, nothing is popped)
+                    for c in mir.value_chain(b, defs0, a[1][0]):
+                        t2 = b.blocks[c[0]]["term"]
+                        for a2 in t2["args"][:1]:
+                            if mir.is_place_op(a2) and "stack_slots" in mir.origin_key(b, defs0, a2[1]):
+                                ok = True
                 r.inst("%s hands a frame to %s #%d" % (hir.last(b.path), hir.last(mir.callee(ct)), cbi), {"fn": b.path, "line": ct["line"], "argument_is_a_popped_frame": ok})
                 if not ok:
                     r.bad(b.path, "%s given something that is not a frame" % hir.last(mir.callee(ct)), relfile(b.file), ct["line"],
